@@ -186,6 +186,26 @@ def check_block(t, b, sp, labels, where, acc, after_edit=None):
         raise
     except Exception as e:  # noqa: BLE001
         raise V("contains-raises", f"non-member item in block raised {type(e).__name__}", "item")
+    # an item from elsewhere that only shares a member's LABEL (samples no member has) is not contained
+    if labels:
+        n2 = 2
+        if t == R.T_DATA3D:
+            src = gen.mk_track3d(n2, (True, True), labels[0], 777)
+        elif t == R.T_FORCE3D:
+            src = gen.mk_ftrack(n2, (True, True), labels[0], 777)
+        elif t == R.T_EMG:
+            src = gen.mk_emgsig(n2, (True, True), labels[0], 777)
+        else:
+            src = {"label": labels[0], "etype": 1, "values": np.array([4321.5, -8.25, 17.0], "<f4")}
+        stranger = specs.build_item(t, src, sp)
+        try:
+            if stranger in b:
+                raise V("non-member-contained", f"an item that shares the label {labels[0]!r} with a member but has other samples is reported as contained",
+                        "same-label")
+        except core.Violation:
+            raise
+        except Exception as e:  # noqa: BLE001
+            raise V("contains-raises", f"same-label non-member in block raised {type(e).__name__}", "item")
     for key in (None, 1.5, b"a", ["a"], ("a",)):
         acc.n["transitions"] += 2
         try:
